@@ -366,10 +366,8 @@ def do_op(obj, op):
 
 def canon(obj, clock, comp):
     now = clock.now
-    if comp == "breaker":
-        from .statebfs import breaker_canon
-        return breaker_canon(obj, now)
-    return tuple(now - t for t in getattr(obj, "_events", ()))
+    from .statebfs import generic_canon
+    return generic_canon(obj, now)
 
 
 def probe(obj, clock, comp):
